@@ -65,6 +65,12 @@ func safe(addr uint16) bool {
 	case addr >= 0xff80 && addr < 0xffff:
 		return true
 	}
+	// hardware registers that are plain eight-bit latches with the LCD off and the timer
+	// stopped (so FF00+n / FF00+C addressing below FF80 is exercised too)
+	switch addr {
+	case 0xff06, 0xff42, 0xff43, 0xff45, 0xff47, 0xff48, 0xff49, 0xff4a, 0xff4b:
+		return true
+	}
 	return false
 }
 
@@ -274,6 +280,12 @@ func (s *sim) genCase(r *rig.Rng, op []byte, fl uint8) (ref.Regs, []byte, bool) 
 			}
 			if n == 2 && (op[0] == 0xe0 || op[0] == 0xf0) {
 				code[1] = 0x80 + uint8(r.Intn(0x7f))
+				if r.Chance(1, 3) {
+					code[1] = r.Pick8([]uint8{0x06, 0x42, 0x43, 0x45, 0x47, 0x48, 0x49, 0x4a, 0x4b})
+				}
+			}
+			if try > 1 && (op[0] == 0xe2 || op[0] == 0xf2) && r.Chance(1, 3) {
+				regs.C = r.Pick8([]uint8{0x06, 0x42, 0x43, 0x45, 0x47, 0x48, 0x49, 0x4a, 0x4b})
 			}
 		}
 		mem := func(a uint16) uint8 {
